@@ -2,6 +2,8 @@
 
 package tsm1
 
+import "sort"
+
 // This file is compiled only with the "verif" build tag. It exposes thin
 // wrappers over unexported engine entry points so that a simulator living in
 // another module can drive them. The wrappers contain no logic of their own.
@@ -18,4 +20,25 @@ func (e *Engine) VerifCompactGroup(group CompactionGroup, level int, fast, full,
 	}
 	s.Apply()
 	e.CompactionPlan.Release([]CompactionGroup{group})
+}
+
+// verifEncodeSorted encodes the entry key by key in sorted key order. The
+// format of an entry is the concatenation of its per-key records, so the
+// result is what Encode produces for one particular map order.
+func (w *WriteWALEntry) verifEncodeSorted(dst []byte) ([]byte, error) {
+	keys := make([]string, 0, len(w.Values))
+	for k := range w.Values {
+		keys = append(keys, k)
+	}
+	sort.Strings(keys)
+	out := dst[:0]
+	for _, k := range keys {
+		one := &WriteWALEntry{Values: map[string][]Value{k: w.Values[k]}}
+		b, err := one.Encode(nil)
+		if err != nil {
+			return nil, err
+		}
+		out = append(out, b...)
+	}
+	return out, nil
 }
